@@ -6,6 +6,7 @@
 #include <thread>
 #include <atomic>
 #include <algorithm>
+#include <system_error>
 
 namespace seq {
 
@@ -106,8 +107,10 @@ static void battery(State& S) {
   void* q = mi_heap_malloc(h, 5000); must(S, q, "allocation from a new heap"); memset(q, 1, 5000);
   mi_heap_destroy(h);
   std::atomic<int> ok(0);
-  std::thread t([&ok]() { void* p = mi_malloc(3000); void* p2 = mi_zalloc(100000); if (p && p2) { memset(p, 2, 3000); ok = 1; } mi_free(p); mi_free(p2); });
-  t.join();
+  try {
+    std::thread t([&ok]() { void* p = mi_malloc(3000); void* p2 = mi_zalloc(100000); if (p && p2) { memset(p, 2, 3000); ok = 1; } mi_free(p); mi_free(p2); });
+    t.join();
+  } catch (const std::system_error& e) { vf_trip("harness", "", "cannot create a thread: %s", e.what()); }
   if (!ok) vf_trip("not-usable-after-heal", "C07", "after the OS grants requests again: allocation in a new thread failed");
   vf_err_reset();
   S.sm.verify_all("after heal");
@@ -141,6 +144,10 @@ static void run_faults(State& S) {
   // conservation: nothing was lost
   S.cfg.profile = keep;
   history_end(S);     // verifies everything, walks, frees everything, forced collect, conservation
+  // first-class heaps that are still alive keep their descriptor blocks (and so a segment) in the backing heap
+  for (size_t i = 1; i < S.heaps.size(); i++) if (S.heaps[i].alive) { mi_heap_delete(S.heaps[i].h); S.heaps[i].alive = false; }
+  S.cur_default = 0;
+  mi_collect(true);
   mi_collect(true);
   // gives everything back (only judged when the OS refused no unmap / purge request)
   if (!unmap_refused && c.injected[VF_OS_MPROTECT] == 0) {
@@ -270,16 +277,22 @@ static void run_purge(State& S) {
   vf_rng_t r; vf_rng_seed(&r, S.cfg.seed);
   // working set: small pages, large pages, whole segments
   std::vector<vf::Blk*> smalls, larges, huges;
-  for (int i = 0; i < 40000; i++) { vf::Blk* b = do_alloc(S, EP_malloc, 64 + (size_t)vf_rng_below(&r, 1500)); if (b) smalls.push_back(b); }
-  for (int i = 0; i < 300; i++) { vf::Blk* b = do_alloc(S, EP_malloc, 100 * KiB + (size_t)vf_rng_below(&r, 400 * KiB)); if (b) larges.push_back(b); }
+  const std::string& sc = S.cfg.scenario;
+  std::vector<vf::Blk*> late;
+  // small and large blocks are interleaved so that every segment holds pages of both kinds
+  for (int i = 0; i < 300; i++) {
+    for (int k = 0; k < 133; k++) { vf::Blk* b = do_alloc(S, EP_malloc, 64 + (size_t)vf_rng_below(&r, 1500)); if (b) smalls.push_back(b); }
+    vf::Blk* b = do_alloc(S, EP_malloc, 100 * KiB + (size_t)vf_rng_below(&r, 400 * KiB)); if (b) larges.push_back(b);
+  }
+  // "segments": further large blocks that fill whole segments of their own (allocated after everything else, freed as a group)
+  if (sc == "segments") for (int i = 0; i < 260; i++) { vf::Blk* b = do_alloc(S, EP_malloc, 400 * KiB + (size_t)vf_rng_below(&r, 100 * KiB)); if (b) { memset(b->p, 0x55, b->u); S.sm.fill(b); late.push_back(b); } }
   for (int i = 0; i < 6; i++) { vf::Blk* b = do_alloc(S, EP_malloc, 18 * MiB + (size_t)vf_rng_below(&r, 8 * MiB)); if (b) { memset(b->p, 0x33, b->u); S.sm.fill(b); huges.push_back(b); } }
   for (vf::Blk* b : larges) { memset(b->p, 0x44, b->u); S.sm.fill(b); }
   g_p_peak = vf_os_committed_resident(0, 0);
   vf_os_counts_t c0; vf_os_get_counts(&c0);
   // free according to the scenario
-  const std::string& sc = S.cfg.scenario;
   if (sc == "pages") { for (vf::Blk* b : smalls) do_free(S, b); smalls.clear(); }
-  else if (sc == "segments") { for (vf::Blk* b : huges) do_free(S, b); huges.clear(); for (vf::Blk* b : larges) do_free(S, b); larges.clear(); }
+  else if (sc == "segments") { for (vf::Blk* b : huges) do_free(S, b); huges.clear(); for (vf::Blk* b : late) do_free(S, b); late.clear(); }
   else { free_all(S); smalls.clear(); larges.clear(); huges.clear(); }
   g_p_after_free = vf_os_committed_resident(0, 0);
   vf_os_counts_t c1; vf_os_get_counts(&c1);
@@ -296,7 +309,7 @@ static void run_purge(State& S) {
       if (b2) do_free(S, b2);
     }
     // ordinary activity also touches the segments that still hold live data: replace a quarter of the live large blocks
-    if (round < 2) for (size_t i = (size_t)round; i < larges.size(); i += 2) {   // (the last two rounds only do the small activity above, so nothing becomes newly purgeable)
+    if (round < 2) for (size_t i = (size_t)round; i < larges.size(); i += 2) {   // every segment that holds a large block sees a page free   // (the last two rounds only do the small activity above, so nothing becomes newly purgeable)
       do_free(S, larges[i]);
       larges[i] = do_alloc(S, EP_malloc, 100 * KiB + (size_t)vf_rng_below(&r, 400 * KiB));
       if (larges[i] == nullptr) { larges[i] = larges.back(); larges.pop_back(); }
@@ -318,13 +331,16 @@ static void run_purge(State& S) {
       vf_trip("purged-although-disabled", "C18", "purge_delay=-1 but %llu purge calls (madvise DONTNEED/FREE, mprotect NONE) were made without a forced collect", (unsigned long long)(c2.purge_calls - c0.purge_calls));
   }
   else {
-    size_t purgeable = (g_p_after_free > g_p_forced ? g_p_after_free - g_p_forced : 0);
+    // yardstick: everything that became unused = peak - what is still committed after a forced collect
+    size_t freed = (g_p_peak > g_p_forced ? g_p_peak - g_p_forced : 0);
     size_t left = (g_p_after_wait > g_p_forced ? g_p_after_wait - g_p_forced : 0);
-    // calibrated on the repaired tree: 'pages' leaves 8-20% (segments that saw no later activity are purged lazily by design), 'segments'/'all' 0-12%
-    const size_t pct = (sc == "pages" ? 45 : 30);
-    if (purgeable >= 16 * MiB && left * 100 > purgeable * pct)
-      vf_trip("not-purged-after-delay", "C18", "purge_delay=%ld (arena multiplier %ld), scenario %s: %zu bytes were purgeable after the frees (a forced collect returns them) but %zu bytes (%zu%%) were still committed "
-              "after the delay had expired 4 times with ordinary activity and non-forced collects (%llu purge calls in that time)", d, mult, sc.c_str(), purgeable, left, left * 100 / (purgeable ? purgeable : 1),
+    // calibrated on the repaired tree (also under load): at most ~15% is left (pages retired for a few cycles, one segment kept by the heap)
+    if (d == 0 && freed >= 16 * MiB && c1.purge_calls == c0.purge_calls)
+      vf_trip("not-purged-immediately", "C18", "purge_delay=0, scenario %s: %zu bytes became unused but no purge call was made while they were freed", sc.c_str(), freed);
+    const size_t pct = (sc == "pages" ? 65 : 35);   // page-level purging inside live segments is lazy by design (needs later activity in that segment)
+    if (freed >= 16 * MiB && left * 100 > freed * pct)
+      vf_trip("not-purged-after-delay", "C18", "purge_delay=%ld (arena multiplier %ld), scenario %s: %zu bytes became unused (a forced collect returns them) but %zu bytes (%zu%%) were still committed "
+              "after the delay had expired 4 times with ordinary activity and non-forced collects (%llu purge calls in that time)", d, mult, sc.c_str(), freed, left, left * 100 / (freed ? freed : 1),
               (unsigned long long)g_p_purge_calls_wait);
   }
   free_all(S);
